@@ -16,11 +16,14 @@ var errInjected = errors.New("c05x: injected reader failure")
 
 // Sched describes how the bytes are handed to the decoder.
 type Sched struct {
-	Chunk   string // whole | 1 | 2 | 3 | 7 | midrune | rand; prefix "z": the first Read returns 0 bytes and no error
+	Chunk   string // whole | 1 | 2 | 3 | 7 | midrune | rand; prefix "z": the first Read returns 0 bytes and no error; prefix "e": the Read that delivers the last bytes also returns io.EOF (n > 0, err != nil in one call)
 	Seed    uint64 // for rand
 	FaultAt int    // -1: none; else after that many bytes every Read fails
-	Fault   string // inj | ueof
+	Fault   string // inj | ueof; suffix "+": the failure is returned by the same Read call that delivers the last bytes before it
 }
+
+// chunkBase strips the schedule modifiers ("z", "e") from a chunking name.
+func chunkBase(c string) string { return strings.TrimLeft(c, "ze") }
 
 func (s Sched) String() string {
 	return fmt.Sprintf("chunk=%s/%d fault=%s@%d", s.Chunk, s.Seed, s.Fault, s.FaultAt)
@@ -40,10 +43,10 @@ type schedReader struct {
 
 func newSchedReader(b []byte, s Sched) *schedReader {
 	r := &schedReader{b: b, sched: s}
-	if strings.TrimPrefix(s.Chunk, "z") == "rand" {
+	if chunkBase(s.Chunk) == "rand" {
 		r.rng = vh.NewRng(s.Seed)
 	}
-	if strings.TrimPrefix(s.Chunk, "z") == "midrune" {
+	if chunkBase(s.Chunk) == "midrune" {
 		r.cuts = map[int]bool{}
 		for i := 0; i < len(b); {
 			_, n := utf8.DecodeRune(b[i:])
@@ -62,7 +65,7 @@ func newSchedReader(b []byte, s Sched) *schedReader {
 
 func (r *schedReader) Read(p []byte) (int, error) {
 	r.Reads++
-	if r.Reads == 1 && strings.HasPrefix(r.sched.Chunk, "z") {
+	if r.Reads == 1 && strings.Contains(r.sched.Chunk[:len(r.sched.Chunk)-len(chunkBase(r.sched.Chunk))], "z") {
 		return 0, nil // a Reader may return 0, nil; the first call of schedule "z…" does
 	}
 	end := len(r.b)
@@ -72,10 +75,7 @@ func (r *schedReader) Read(p []byte) (int, error) {
 	if r.pos >= end {
 		if r.sched.FaultAt >= 0 {
 			r.Delivered = true
-			if r.sched.Fault == "ueof" {
-				return 0, io.ErrUnexpectedEOF
-			}
-			return 0, errInjected
+			return 0, r.faultErr()
 		}
 		return 0, io.EOF
 	}
@@ -83,7 +83,7 @@ func (r *schedReader) Read(p []byte) (int, error) {
 		return 0, nil
 	}
 	n := len(p)
-	switch strings.TrimPrefix(r.sched.Chunk, "z") {
+	switch chunkBase(r.sched.Chunk) {
 	case "1":
 		n = 1
 	case "2":
@@ -111,5 +111,21 @@ func (r *schedReader) Read(p []byte) (int, error) {
 	}
 	copy(p, r.b[r.pos:r.pos+n])
 	r.pos += n
+	if r.pos >= end { // io.Reader allows the terminal condition to come with the last bytes
+		switch {
+		case r.sched.FaultAt >= 0 && strings.HasSuffix(r.sched.Fault, "+"):
+			r.Delivered = true
+			return n, r.faultErr()
+		case r.sched.FaultAt < 0 && strings.Contains(r.sched.Chunk[:len(r.sched.Chunk)-len(chunkBase(r.sched.Chunk))], "e"):
+			return n, io.EOF
+		}
+	}
 	return n, nil
+}
+
+func (r *schedReader) faultErr() error {
+	if strings.TrimSuffix(r.sched.Fault, "+") == "ueof" {
+		return io.ErrUnexpectedEOF
+	}
+	return errInjected
 }
